@@ -130,7 +130,7 @@ CLAIMS = {
                  "with one object per row, each object the key/value map the row was written from (json_literal_roundtrip, "
                  "json_object_roundtrip, json_document_roundtrip); the HTML document — header, one <tr> per row with one <td> per value, footer — is "
                  "read back as the list of rows, every cell unescaped to its value (html_text_in_context, html_row_roundtrip, "
-                 "html_document_roundtrip). That the four result paths emit header/rows/separators/footer in this "
+                 "html_document_roundtrip); the `into list` output split at NUL is all the cells of all the rows in order (list_document_roundtrip). That the four result paths emit header/rows/separators/footer in this "
                  "shape is decided by correspondence (bytes vs model) and by Python's parsers against the `into list` run. Known finding D19 "
                  "(identical column texts share a JSON key) is reported as KNOWN-FINDING."),
         "ref": "DESIGN.md §4 C09",
